@@ -17,6 +17,12 @@ export function edgeValue(rng) {
   return rng.pick(EDGE)()
 }
 
+// without numbers that would make `wx:for` iterate millions of times (used where no reference pre-pass filters)
+export const EDGE_SMALL = EDGE.filter((f) => { const v = f(); return typeof v !== 'number' || !(Math.abs(v) > 100) })
+export function edgeValueSmall(rng) {
+  return rng.pick(EDGE_SMALL)()
+}
+
 /** A data environment for expression leaves a..f plus typed helpers. */
 export function makeEnv(rng, names) {
   const D = {}
